@@ -130,6 +130,10 @@ fn reply_from_pool(rng: &mut Rng, max_files: usize, allow_big: bool) -> Reply {
     reply
 }
 
+pub fn reply_from_pool_pub(rng: &mut Rng, max_files: usize) -> Reply {
+    reply_from_pool(rng, max_files, false)
+}
+
 pub struct Built {
     pub scenario: Scenario,
 }
